@@ -100,6 +100,14 @@ func errAtoms() []atom {
 	}
 }
 
+type textWrap struct {
+	text  string
+	inner error
+}
+
+func (t textWrap) Error() string { return t.text }
+func (t textWrap) Unwrap() error { return t.inner }
+
 type joined struct{ errs []error }
 
 func (j joined) Error() string {
@@ -180,6 +188,21 @@ func ClassifierCases(tier string, seed uint64, statusLits []int) ([]ErrCase, err
 				f2.StatusText = 0 // wrapping changes err.Error()
 			}
 			run("wrapped-"+a.name, fmt.Errorf("round trip: %w", a.err), f2, https)
+		}
+	}
+	// an error whose text is a status text AND that wraps another error: the order of the handlers decides
+	for _, inner := range []string{"operr", "operr-timeout", "record", "cert", "alert", "auth", "denied", "canceled", "deadline"} {
+		for _, code := range []int{403, 404, 502, 503} {
+			var ia atom
+			for _, a := range atoms {
+				if a.name == inner {
+					ia = a
+				}
+			}
+			f := NoFeat()
+			ia.set(&f)
+			f.StatusText = code
+			run(fmt.Sprintf("textwrap-%d-%s", code, inner), textWrap{http.StatusText(code), ia.err}, f, true)
 		}
 	}
 	// pairs and triples in both orders: which handler wins is decided by the handler order, not by the order of wrapping
